@@ -16,8 +16,17 @@ def sh(cmd, **kw):
     return subprocess.run(cmd, shell=True, capture_output=True, text=True, **kw)
 
 
-def build(bdir):
-    r = sh("cmake -G Ninja -S %s -B %s -DWITH_TESTS=ON -DCMAKE_BUILD_TYPE=RelWithDebInfo -DSANITIZE=OFF >/dev/null && cmake --build %s 2>&1 | tail -3" % (WT, bdir, bdir))
+def demo_cmake_args():
+    """a demonstration that needs a non-default library configuration says so in a comment line `CMAKE_ARGS: -D...`"""
+    try:
+        m_ = re.search(r"CMAKE_ARGS:\s*(.*)", open(os.path.join(seed, "demo.c")).read())
+        return m_.group(1).strip() if m_ else ""
+    except OSError:
+        return ""
+
+
+def build(bdir, extra=""):
+    r = sh("cmake -G Ninja -S %s -B %s -DWITH_TESTS=ON -DCMAKE_BUILD_TYPE=RelWithDebInfo -DSANITIZE=OFF %s >/dev/null && cmake --build %s 2>&1 | tail -3" % (WT, bdir, extra, bdir))
     return r.returncode == 0, r.stdout[-400:] + r.stderr[-400:]
 
 
@@ -35,14 +44,20 @@ meta = dict(id=sid, property=prop, source="independent sub-agent given only the 
 if not os.path.isdir(WT):
     sh("git -C /repo worktree add -q --detach %s HEAD" % WT)
 sh("git -C %s checkout -q -- . && git -C %s checkout -q --detach $(git -C /repo rev-parse HEAD)" % (WT, WT))
-ok0, out0 = build(WT + "/_b0")
+EXTRA = demo_cmake_args()
+meta["demo_cmake_args"] = EXTRA
+shutil.rmtree(WT + "/_b0", ignore_errors=True)
+ok0, out0 = build(WT + "/_b0", EXTRA)
 a = sh("git -C %s apply %s/patch.diff" % (WT, seed))
 meta["patch_applies"] = a.returncode == 0
 if a.returncode != 0:
     print("patch does not apply:", a.stderr)
     sys.exit(1)
-ok1, out1 = build(WT + "/_b1")
+ok1, out1 = build(WT + "/_b1")      # the pinned suite is run on the default configuration
 t = sh("ctest --test-dir %s/_b1 -j8 --timeout 900 2>&1 | tail -4" % WT)
+if EXTRA:
+    shutil.rmtree(WT + "/_b1", ignore_errors=True)
+    ok1, out1 = build(WT + "/_b1", EXTRA)      # the demonstration runs against the configuration it asks for
 m = re.search(r"(\d+)% tests passed, (\d+) tests failed out of (\d+)", t.stdout)
 meta["builds"] = ok1
 meta["pinned_suite_with_change"] = t.stdout.strip().splitlines()[-3:] if t.stdout else []
